@@ -369,6 +369,36 @@ EXTRA_KW = {
 }
 
 
+def check_named_huge(case):
+    """Named fairness metrics on a million (and more) weighted rows against numpy rates."""
+    import fairlearn.metrics as fm
+
+    rs = np.random.RandomState(case["seed"])
+    n, G = case["n"], case["groups"]
+    g = rs.randint(0, G, size=n)
+    yt = rs.randint(0, 2, size=n)
+    yp = (rs.rand(n) < 0.2 + 0.2 * g).astype(int)
+    w = rs.randint(1, 4, size=n).astype(float) * case["wscale"]
+    sel = [float(w[(g == k) & (yp == 1)].sum() / w[g == k].sum()) for k in range(G)]
+    ov = float(w[yp == 1].sum() / w.sum())
+    tpr = [float(w[(g == k) & (yp == 1) & (yt == 1)].sum() / w[(g == k) & (yt == 1)].sum()) for k in range(G)]
+    tov = float(w[(yp == 1) & (yt == 1)].sum() / w[yt == 1].sum())
+    for method in ("between_groups", "to_overall"):
+        exp = {"demographic_parity_difference": _difference(sel, ov, method), "demographic_parity_ratio": _ratio(sel, ov, method),
+               "equal_opportunity_difference": _difference(tpr, tov, method)}
+        for name, e in exp.items():
+            got = _scalar(name, getattr(fm, name)(yt, yp, sensitive_features=g, sample_weight=w, method=method))
+            if not M.close(got, e):
+                raise PropertyViolation(f"{name}(method={method}) on {n} weighted rows = {got!r}, first-principles {e!r}; group rates {sel}, overall {ov}")
+    return ["nt"]
+
+
+@st.composite
+def _named_huge_cases(draw):
+    return {"n": draw(st.sampled_from([1000000, 1000001, 1048576])), "groups": draw(st.integers(2, 3)), "seed": draw(st.integers(0, 2**31 - 1)),
+            "wscale": draw(st.sampled_from([1.0, 0.5, 3.0]))}
+
+
 # ---- make_derived_metric -----------------------------------------------------------------------------
 
 
@@ -584,4 +614,5 @@ SUBS = [
         floors={"nt": 0.19}),
     Sub("derived_random", check_derived, strategy=_derived_case, quick=500, thorough=6000, shards=8,
         floors={"nt": 0.208, "bound_params": 0.225, "weighted": 0.263}),
+    Sub("named_huge", check_named_huge, strategy=_named_huge_cases, quick=3, thorough=16, shards=3, shrink_quick=False),
 ]
